@@ -681,9 +681,19 @@ TryFExc ==
 ---------------------------------------------------------------------------
 (* raise *)
 
+\* the class dtml-raise raises: the named one, or -- expr form -- what the expression evaluates to (here: a name bound to an
+\* exception class in the namespace); when the expression cannot be evaluated the text is tried as a well-known class name
+KnownExc == {"KeyError", "IndexError", "LookupError", "ValueError", "ZeroDivisionError", "NameError", "Exception", "OSError",
+             "TypeError", "AttributeError", "RuntimeError"}
+RaisedClass(nd) ==
+    IF ~nd.x THEN nd.cls
+    ELSE LET i == Find(nd.cls) IN
+         IF i > 0 /\ ValIn(ns[i], nd.cls).k = "exccls" THEN ValIn(ns[i], nd.cls).id
+         ELSE IF nd.cls \in KnownExc THEN nd.cls ELSE "InvalidErrorTypeExpression"
+
 RbRaise ==
     /\ AtNode("raise")
-    /\ ctl' = ctl \o <<[k |-> "raise", node |-> Node, st |-> "body", base |-> Len(ns)], Rb(Node.b)>>
+    /\ ctl' = ctl \o <<[k |-> "raise", node |-> [Node EXCEPT !.cls = RaisedClass(Node)], st |-> "body", base |-> Len(ns)], Rb(Node.b)>>
     /\ UNCHANGED <<tid, plan, ns, level, calls, ninv, exc, ret, evs, result>>
 
 Join(s) == s      \* the message is the sequence of pieces; the harness joins
